@@ -63,6 +63,7 @@ func genCase(t *rapid.T) Case {
 	if small {
 		o = gen.SmallPE
 	}
+	o.OddTable = true
 	img := gen.PEImage(o).Draw(t, "img")
 	c := Case{Img: img}
 	l, err := pehash.Parse(img)
@@ -120,7 +121,26 @@ func checkFlip(img []byte, l *pehash.Layout, base *pehash.Result, f Flip) error 
 	hx.Class("flip/" + region)
 	mut := append([]byte{}, img...)
 	mut[f.Pos] ^= f.Xor
-	got, lerr := libHash(mut)
+	mutWellFormed := false
+	if ml, err := pehash.Parse(mut); err == nil && ml.WellFormedInput(mut) == nil {
+		mutWellFormed = true
+	}
+	var got []byte
+	var lerr error
+	func() {
+		// The changed image may no longer be a well-formed one. What the library does with those (an error, or even
+		// a crash) is the subject of C13, not of this property: a panic is passed on only for well-formed images.
+		defer func() {
+			if r := recover(); r != nil {
+				if mutWellFormed {
+					panic(r)
+				}
+				hx.Class("flip_made_the_image_malformed_and_the_library_panicked_(C13)")
+				got, lerr = nil, fmt.Errorf("panic: %v", r)
+			}
+		}()
+		got, lerr = libHash(mut)
+	}()
 	covered := base.Covered[f.Pos] > 0
 	if covered && got != nil && bytes.Equal(got, base.Digest) {
 		return fmt.Errorf("byte %d (%s) is covered by the specification hash, changing it (xor %#x) left the digest unchanged", f.Pos, region, f.Xor)
@@ -130,7 +150,7 @@ func checkFlip(img []byte, l *pehash.Layout, base *pehash.Result, f Flip) error 
 		return fmt.Errorf("byte %d (%s) is excluded from the hash, changing it (xor %#x) changed the digest", f.Pos, region, f.Xor)
 	}
 	// differential on the mutated image when it is still well-formed
-	if ml, err := pehash.Parse(mut); err == nil && ml.WellFormed(mut) == nil {
+	if ml, err := pehash.Parse(mut); err == nil && ml.WellFormedInput(mut) == nil {
 		want, err := ml.Hash(mut)
 		if err == nil {
 			hx.Class("flip_still_wellformed")
@@ -153,7 +173,7 @@ func checkCase(c Case) error {
 	if err != nil {
 		return fmt.Errorf("bad case: %v", err)
 	}
-	if err := l.WellFormed(img); err != nil {
+	if err := l.WellFormedInput(img); err != nil {
 		return fmt.Errorf("bad case: image not well-formed: %v", err)
 	}
 	want, err := l.Hash(img)
@@ -255,6 +275,7 @@ func checkCase(c Case) error {
 	if kerr != nil {
 		return fmt.Errorf("Parse rejects a well-formed image: %v", kerr)
 	}
+	keptBytes := kept.Bytes()
 	// (b) metamorphic
 	if c.All {
 		hx.Class("img/every_position_flipped")
@@ -276,6 +297,11 @@ func checkCase(c Case) error {
 	padded := append([]byte{}, img...)
 	for len(padded)%8 != 0 {
 		padded = append(padded, 0)
+	}
+	if l.CertSize != 0 && (l.CertVA%8 != 0 || l.CertSize%8 != 0) {
+		// an existing table that is not aligned: how the library lays such an image out again is not this property's
+		// subject; the object must still serialise as it did right after Parse
+		padded = keptBytes
 	}
 	if !bytes.Equal(kept.Bytes(), padded) {
 		return fmt.Errorf("an image object parsed before other images were parsed no longer serialises to its own bytes (zero-padded to 8)")
